@@ -8,6 +8,7 @@ CONSTANTS
   SharedEqualRecords = TRUE
   ClassLevelOption = FALSE
   StoreBeforeValidate = FALSE
+  ReorderStoresPlainKeys = FALSE
   Emit = FALSE
   EmitOff = 0
 SPECIFICATION Spec
